@@ -1,5 +1,5 @@
 From Coq Require Import List Bool.
-From LTV.C18 Require Import Model Proofs ProofsA ProofsB ProofsC ProofsD ProofsE.
+From LTV.C18 Require Import Model Proofs ProofsA ProofsB ProofsC ProofsD ProofsE ProofsF.
 Import ListNotations.
 
 (* All theorems below: for ALL main-thread programs p0 and disk-thread programs p1 (hypotheses: each chunk id is
@@ -110,13 +110,43 @@ Theorem wakeup_within_4_disk_steps : forall p0 s c t l rest,
 Proof. exact ProofsE.wakeup_within_4. Qed.
 Print Assumptions wakeup_within_4_disk_steps.
 
-(* TERMINATION OF remove - PARTIAL. Proved: every round of remove's wait ends within 4 disk steps
-   (wakeup_within_4_disk_steps), the awaited piece is never skipped (no_lost_wakeup) and every publish moves one
-   piece from the check queue to the done map. MISSING: the assembled statement "remove(t) returns after finitely
-   many steps under a fair schedule" (a lexicographic variant: pieces of t still in the check queue / hands, then
-   the phase of the wait loop); the main thread may spin through IRemDone/IRemWait while the flag stays set by
-   earlier publishes (busy wait in the real code as well). The finite instance below explores every interleaving of one
-   small program inside Coq (bound 40 steps in the statement) and finds every maximal run finished. *)
+(* TERMINATION OF HashQueue::remove, disk thread = its event loop [Loop], ALL main programs.
+   The variant is lexicographic: (number of nodes of the torrent still in the HashQueue, [mu s c]) where [mu] bounds the
+   disk-thread steps until the awaited piece c is in the done map (4 per piece in front of c in the check queue plus the
+   phase of the disk thread's loop).
+   - [disk_progress]: while main awaits c and c is not published, the disk thread is ENABLED and each of its steps strictly
+     decreases mu, leaving the main thread and the nodes untouched;
+   - [main_stutters]: main's own steps in that situation only alternate between the locked probe and the wait (the busy
+     wait of the real code) and change neither mu nor the nodes;
+   - [results_pending_flag_set]: a non-empty done map implies the flag, so once c is published the wait is passable;
+   - [remove_terminates]: from EVERY reachable state inside remove(t) there is a schedule (fair: the disk thread gets the
+     bounded number of steps the variant asks for, then main one or two) after which remove(t) has returned, no node of t
+     is left and hence (location_inv) none of its pieces is in the check queue, the disk thread's hands or the done map.
+   Together: under every schedule that is fair to the disk thread remove terminates (standard variant argument: mu never
+   increases while main awaits c, decreases with every disk step, and at 0 with the lock free main completes the node).
+   Not formalised: infinite schedules / the fairness predicate itself. *)
+Theorem results_pending_flag_set : forall p0 p1 s, reachable (init p0 p1) s -> dn s <> [] -> flag s = true.
+Proof. exact ProofsF.reachable_flag_dn. Qed.
+Print Assumptions results_pending_flag_set.
+Theorem disk_progress : forall p0 s c t,
+  distinct_pushes p0 [Loop] -> reachable (init p0 [Loop]) s ->
+  awaiting s c t -> mem c (dn s) = false ->
+  exists s', step s 1 = Some s' /\ mu s' c < mu s c /\ td0 s' = td0 s /\ hq s' = hq s.
+Proof. exact ProofsF.disk_progress. Qed.
+Print Assumptions disk_progress.
+Theorem main_stutters : forall s c t s1, dshape (td1 s) -> awaiting s c t -> mem c (dn s) = false -> step s 0 = Some s1 ->
+  awaiting s1 c t /\ mu s1 c = mu s c /\ hq s1 = hq s.
+Proof. exact ProofsF.main_stutters. Qed.
+Print Assumptions main_stutters.
+Theorem remove_terminates : forall p0, distinct_pushes p0 [Loop] -> forall k s t L,
+  reachable (init p0 [Loop]) s -> rem_view (td0 s) = Some (t, L) -> nt t (hq s) <= k ->
+  exists sched, Forall (fun x => x < 2) sched /\
+    (forall L', rem_view (td0 (run s sched)) <> Some (t, L')) /\
+    (forall n, In n (hq (run s sched)) -> snd n <> t).
+Proof. exact ProofsF.remove_terminates. Qed.
+Print Assumptions remove_terminates.
+
+(* sanity instance (finite, bound in the statement): every interleaving of one small program explored inside Coq *)
 Theorem hashing_handoff_instance_partial : explore 40 prog_a = true.
 Proof. exact Proofs.instance_a. Qed.
 Print Assumptions hashing_handoff_instance_partial.
